@@ -257,6 +257,9 @@ def main(argv):
                 undecided.append('lost anchor: ' + l)
         for k, v in mine.items():
             obligations[k] = v
+            if k in getattr(g, 'review', ()):
+                undecided.append('isolated function (an optional item is present whose effect on this property no contract here can decide): %s — %s' % (k, v.get('expr', '')))
+                continue
             if v['fn'] in g.stubbed:
                 continue
             if k in out['failed']:
